@@ -148,6 +148,19 @@ def specFrames : Nat → Bytes → List (Nat × Bytes)
         | some (len, r2) =>
           if r2.length < len then [] else (ty, r2.take len) :: specFrames fuel (r2.drop len)
 
+/-- a complete DATA / HEADERS / SETTINGS / GREASE frame at the front of the input whose payload is
+within the 4096-byte limit (by the independent framing of `Spec`) is delivered as that frame -/
+def completeFrameDelivered (b : Bytes) (o : String) : Bool :=
+  match specFrames 1 b with
+  | (ty, payload) :: _ =>
+    let known := ty == Spec.FRAME_DATA || ty == Spec.FRAME_HEADERS || ty == Spec.FRAME_SETTINGS || Spec.isGrease ty
+    if known && payload.length ≤ 4096 then
+      let kindS := if ty == Spec.FRAME_DATA then "data" else if ty == Spec.FRAME_HEADERS then "headers"
+        else if ty == Spec.FRAME_SETTINGS then "settings" else s!"ex{ty}"
+      o.startsWith s!"frame:{kindS}:{hex payload}:"
+    else true
+  | [] => true
+
 /-- **Skipped whole**: every DATA / HEADERS / SETTINGS / GREASE frame a typestate reader delivered
 is, in order, a complete frame of the stream by the independent framing — never bytes from inside
 another element -/
@@ -218,7 +231,8 @@ def handleCore (op : String) (a obs : List String) : Option Verdict :=
     let b ← unhex (get a 0)
     let r := Frame.read b
     let model := [frameRead b.length r]
-    let prop := check [("no_trap", !isTrap obs)]
+    let prop := check [("no_trap", !isTrap obs),
+      ("complete_frame_within_the_limit_is_delivered", completeFrameDelivered b (get obs 0))]
     pure (model, prop)
   | "frame.readbuf" => do
     let b ← unhex (get a 1)
@@ -227,7 +241,8 @@ def handleCore (op : String) (a obs : List String) : Option Verdict :=
     let o0 := get obs 0
     let isFrame := o0.startsWith "frame:"
     let prop := check [("no_trap", !isTrap obs),
-      ("offset_untouched_unless_frame", isFrame || get obs 1 == "0")]
+      ("offset_untouched_unless_frame", isFrame || get obs 1 == "0"),
+      ("complete_frame_within_the_limit_is_delivered", completeFrameDelivered b o0)]
     pure (model, prop)
   | "frame.readasync" => do
     let b ← unhex (get a 0)
